@@ -121,8 +121,26 @@ type Opts struct {
 // GenPayload draws a payload for a frame of the given type.
 func GenPayload(t *rt.Tape, typ, n int) []byte {
 	p := make([]byte, n)
-	mode := t.SW(4, 3, 2, 1) // zeros, random, sprinkled 0xD3, all 0xD3
+	mode := t.SW(8, 6, 4, 2, 2, 1) // zeros, random, sprinkled 0xD3, all 0xD3, nested frame, nested leaders
 	switch mode {
+	case 4:
+		// a complete valid frame (or several) nested inside the payload
+		for i := range p {
+			p[i] = byte(t.S(256))
+		}
+		if n >= 10 {
+			inner := Frame(t.SBytes(1 + t.S(min(n-9, 12))))
+			off := 2 + t.S(n-len(inner)-1)
+			copy(p[off:], inner)
+		}
+	case 5:
+		// plausible leaders (D3 00 0x) scattered through the payload
+		for i := range p {
+			p[i] = byte(t.S(256))
+		}
+		for i := 2; i+3 <= n; i += 3 + t.S(9) {
+			p[i], p[i+1], p[i+2] = 0xD3, byte(t.S(4)), byte(1+t.S(20))
+		}
 	case 1:
 		for i := range p {
 			p[i] = byte(t.S(256))
@@ -344,6 +362,22 @@ func GenStream(t *rt.Tape, o Opts) []Segment {
 	return segs
 }
 
+// GenBulk draws a long stream of many tiny messages (alternating 1-byte junk and
+// minimal frames, with the odd larger frame): state that has to build up
+// (queues, rings, backlogs) needs hundreds or thousands of messages.
+func GenBulk(t *rt.Tape, n int) []Segment {
+	var segs []Segment
+	for i := 0; i < n; i++ {
+		if i%2 == 0 {
+			f := Frame([]byte{byte(0x3e + i%3), byte(i)})
+			segs = append(segs, Segment{Kind: KindFrame, Bytes: f, Type: TypeOf(f)})
+		} else {
+			segs = append(segs, Segment{Kind: KindJunk, Bytes: []byte{byte('a' + i%26)}})
+		}
+	}
+	return segs
+}
+
 func Concat(segs []Segment) []byte {
 	var b []byte
 	for _, s := range segs {
@@ -517,8 +551,27 @@ func ByzantineFrame(t *rt.Tape) Segment {
 		p[i] = byte(t.S(256))
 	}
 	hdr := []byte{0xD3, byte(n>>8) & 3, byte(n)}
-	kind := t.S(3)
+	kind := t.S(5)
 	switch kind {
+	case 3:
+		// a sender that ignores the 10-bit limit: 16-bit length field equal to the
+		// real data length (1024 and up), CRC consistent
+		n = []int{1024, 1024, 1025, 1030, 2047, 2048}[t.S(6)]
+		p = make([]byte, n)
+		seed := byte(t.S(256))
+		for i := range p {
+			p[i] = seed ^ byte(i*11)
+		}
+		hdr[1], hdr[2] = byte(n>>8), byte(n)
+	case 4:
+		// the empty "keep-alive" frame d3 00 00 + CRC, intact or with one CRC byte wrong
+		f := []byte{0xD3, 0, 0}
+		c := CRC24Q(f)
+		f = append(f, byte(c>>16), byte(c>>8), byte(c))
+		if k := t.S(4); k > 0 {
+			f[2+k] ^= byte(1 + t.S(255))
+		}
+		return Segment{Kind: KindGarbage, Bytes: f}
 	case 0:
 		hdr[1] |= byte(1+t.S(63)) << 2
 	case 1:
